@@ -786,7 +786,8 @@ pub fn run(suite: &str, thorough: bool, seed: u64, shard: usize, nshards: usize,
                     let extra = vec![
                         ("expect_sx", Json::s(doc::sx_doc(&d))),
                         ("expect_spans", spans_json(&rd, &laid)),
-                        ("verdict", Json::s("wf")),
+                        ("verdict", Json::s(if gen::has_overflowing_code(&d) { "bad" } else { "wf" })),
+                        ("how", Json::s(if gen::has_overflowing_code(&d) { "transact code does not fit u32" } else { "wf" })),
                     ];
                     em.case(s, parse_case(&vec![("f".to_owned(), laid.text)], extra));
                 }
@@ -934,8 +935,56 @@ pub fn run(suite: &str, thorough: bool, seed: u64, shard: usize, nshards: usize,
                 let mut r = Rng::new(sd);
                 let cfg = gen::DocCfg { max_members: 4, docs: false, ..Default::default() };
                 let mut d = gen::gen_document(&mut r, &cfg);
-                let len = r.range(1, 6);
-                let g: Vec<String> = (0..len).map(|_| (*r.pick(&vocab)).to_owned()).collect();
+                if gen::has_overflowing_code(&d) {
+                    continue; // the siblings must be well-formed
+                }
+                let g: Vec<String> = if r.chance(1, 2) {
+                    let len = r.range(1, 6);
+                    (0..len).map(|_| (*r.pick(&vocab)).to_owned()).collect()
+                } else {
+                    // a near miss: a well-formed member of this kind of item (annotations with
+                    // parameters more often than not) with one token deleted / replaced / inserted
+                    let pool = gen::TypePool::default_pool();
+                    let mut mcfg = gen::DocCfg { docs: false, max_depth: 2, ..Default::default() };
+                    mcfg.anns = true;
+                    let mut tmp = d.clone();
+                    let mut m = match d.item.kind {
+                        doc::ItemKind::Interface => doc::MemberDoc::Method(gen::gen_method(&mut r, &mcfg, &pool)),
+                        doc::ItemKind::Parcelable => doc::MemberDoc::Field(gen::gen_field(&mut r, &mcfg, &pool)),
+                        doc::ItemKind::Enum => doc::MemberDoc::EnumEl(gen::gen_enumel(&mut r, &mcfg)),
+                    };
+                    if r.chance(2, 3) {
+                        let ann = doc::AnnDoc {
+                            name: "@Foo".to_owned(),
+                            params: Some((vec![("a".to_owned(), Some("1".to_owned()))], false)),
+                        };
+                        match &mut m {
+                            doc::MemberDoc::Method(x) => x.annotations = vec![ann],
+                            doc::MemberDoc::Field(x) => x.annotations = vec![ann],
+                            doc::MemberDoc::EnumEl(x) => x.annotations = vec![ann],
+                            _ => {}
+                        }
+                    }
+                    tmp.item.members = vec![m];
+                    tmp.item.enum_trailing_comma = true;
+                    let rt = doc::render(&tmp);
+                    let sp = rt.spans.iter().find(|sp| matches!(sp.what, "method" | "field" | "enumel")).unwrap();
+                    let mut toks: Vec<String> = rt.toks[sp.first_with_ann..=sp.last].iter().map(|t| t.text.clone()).collect();
+                    let k = r.below(toks.len());
+                    match r.below(3) {
+                        0 => {
+                            toks.remove(k);
+                        }
+                        1 => toks[k] = (*r.pick(&vocab)).to_owned(),
+                        _ => toks.insert(k, (*r.pick(&vocab)).to_owned()),
+                    }
+                    // no terminator or brace inside
+                    toks.retain(|t| t != ";" && t != "," && t != "{" && t != "}");
+                    if toks.is_empty() {
+                        continue;
+                    }
+                    toks
+                };
                 // it must not itself be a well-formed member: parse it alone in the same kind of item
                 let mut probe = d.clone();
                 probe.item.members = vec![doc::MemberDoc::Garbage(g.clone())];
